@@ -159,4 +159,138 @@ def entryOk (e : SolEntry) : Bool :=
   e.hashArgs.all (fun p => p.1 != "_fxBridgeId" || p.2 == "state_fxBridgeId") &&
   (solSites.any fun s => s.file == e.file && s.func == e.hashFn)
 
+/-! ## Part D — `ValidateConfirmSign` as the source spells it: the regenerated statement list, interpreted -/
+
+/-- variables of `ValidateConfirmSign` -/
+structure VEnv where
+  sig : Option (List Nat) := none     -- sigBytes
+  err : Bool := false
+  found : Bool := false
+  oracleAddr : Option Nat := none
+  oracle : Option OracleRec := none
+
+inductive VRes where
+  | cont (e : VEnv)
+  | fail (e : Err)
+  | ret (oracle : Nat) (sig : List Nat) (r : OracleRec)
+
+/-- error kind of a returned error (constant name, or first words of the Wrapf text) -/
+def errOfText (t : String) : Err :=
+  if t == "signature decoding" then .sigDecode
+  else if t == "types.ErrNoFoundOracle" then .noOracle
+  else if t == "got %s," then .mismatch
+  else if t == "signature verification" then .badSig
+  else .modelGap
+
+/-- value of a string-typed expression: the parameters `signatureAddr`, `bridgerAddr` and the fields of `oracle` -/
+def vStr (m : ConfirmMsg) (e : VEnv) (x : String) : Option String :=
+  if x == "signatureAddr" then some m.external
+  else if x == "bridgerAddr" then some m.bridger
+  else if x == "oracle.ExternalAddress" then e.oracle.map (·.external)
+  else if x == "oracle.BridgerAddress" then e.oracle.map (·.bridger)
+  else none
+
+/-- an `if` condition (binary conditions come split as [lhs, operator, rhs]) -/
+def vCond (m : ConfirmMsg) (e : VEnv) : List String → Option Bool
+  | ["err", "!=", "nil"] => some e.err
+  | ["!found"] => some (!e.found)
+  | [a, "!=", b] =>
+    match vStr m e a, vStr m e b with
+    | some x, some y => some (x != y)
+    | _, _ => none
+  | _ => none
+
+def vStep (tron : Bool) (recoverBy : String → List Nat → List Nat → Option String) (st : HState) (m : ConfirmMsg)
+    (digest : List Nat) (s : VStmt) (e : VEnv) : VRes :=
+  if !(s.conds.all (condHolds tron)) then .cont e
+  else if s.kind == "assign" then
+    if s.fn == "hex.DecodeString" && s.args == ["signature"] && s.lhs == ["sigBytes", "err"] then
+      .cont { e with sig := m.sig, err := m.sig.isNone }
+    else if s.fn == "k.GetOracleAddrByExternalAddr" && s.lhs == ["oracleAddr", "found"] then
+      match s.args with
+      | [a] =>
+        match vStr m e a with
+        | some x => .cont { e with oracleAddr := st.byExternal.lookup x, found := (st.byExternal.lookup x).isSome }
+        | none => .fail .modelGap
+      | _ => .fail .modelGap
+    else if s.fn == "k.GetOracle" && s.args == ["oracleAddr"] && s.lhs == ["oracle", "found"] then
+      match e.oracleAddr with
+      | some o => .cont { e with oracle := st.oracles.lookup o, found := (st.oracles.lookup o).isSome }
+      | none => .fail .modelGap
+    else .fail .modelGap
+  else if s.kind == "failIf" then
+    match vCond m e s.args with
+    | some true => .fail (errOfText s.err)
+    | some false => .cont e
+    | none => .fail .modelGap
+  else if s.kind == "check" then
+    match s.args, e.sig with
+    | [cp, sg, who], some sig =>
+      if cp == "checkpoint" && sg == "sigBytes" then
+        match vStr m e who with
+        | some w => if recoverBy s.fn digest sig ≠ some w then .fail (errOfText s.err) else .cont e
+        | none => .fail .modelGap
+      else .fail .modelGap
+    | _, _ => .fail .modelGap
+  else if s.kind == "ret" then
+    match s.args, e.oracleAddr, e.sig, e.oracle with
+    | ["oracleAddr", "nil"], some o, some sig, some r => .ret o sig r
+    | _, _, _, _ => .fail .modelGap
+  else .fail .modelGap
+
+def vRun (tron : Bool) (recoverBy : String → List Nat → List Nat → Option String) (st : HState) (m : ConfirmMsg)
+    (digest : List Nat) : List VStmt → VEnv → Except Err (Nat × List Nat × OracleRec)
+  | [], _ => .error .modelGap
+  | s :: rest, e =>
+    match vStep tron recoverBy st m digest s e with
+    | .cont e' => vRun tron recoverBy st m digest rest e'
+    | .fail x => .error x
+    | .ret o sig r => .ok (o, sig, r)
+
+/-- the validation `confirmStep` specifies -/
+def validateSpec (recover : List Nat → List Nat → Option String) (st : HState) (m : ConfirmMsg) (digest : List Nat) :
+    Except Err (Nat × List Nat × OracleRec) :=
+  match m.sig with
+  | none => .error .sigDecode
+  | some sig =>
+    match st.byExternal.lookup m.external with
+    | none => .error .noOracle
+    | some oracle =>
+      match st.oracles.lookup oracle with
+      | none => .error .noOracle
+      | some r =>
+        if r.external ≠ m.external then .error .mismatch
+        else if r.bridger ≠ m.bridger then .error .mismatch
+        else if recover digest sig ≠ some r.external then .error .badSig
+        else .ok (oracle, sig, r)
+
+/-- the signature validator a chain style runs -/
+def validatorOf (tron : Bool) : String := if tron then "trontypes.ValidateTronSignature" else "types.ValidateEthereumSignature"
+
+/-- the handler with BOTH regenerated parts: key plan and `ValidateConfirmSign` statement list -/
+def confirmStepPV (P : Plan) (prog : List VStmt) (tron : Bool) (recoverBy : String → List Nat → List Nat → Option String)
+    (st : HState) (m : ConfirmMsg) : Except Err HState :=
+  match findObject P.kind st m.key P.lookups with
+  | none => .error .notFound
+  | some (fk, digest) =>
+    match vRun tron recoverBy st m digest prog {} with
+    | .error e => .error e
+    | .ok (oracle, sig, r) =>
+      match refKey P.kind m.key fk P.dup, refKey P.kind m.key fk P.store with
+      | some dk, some sk =>
+        if hasConfirm st dk oracle then .error .duplicate
+        else .ok { st with confirms := ⟨sk, oracle, m.bridger, m.external, sig, digest, r⟩ :: st.confirms }
+      | _, _ => .error .modelGap
+
+/-- what the driver runs -/
+def confirmStepGV (tron : Bool) (recoverBy : String → List Nat → List Nat → Option String) (st : HState) (m : ConfirmMsg) :
+    Except Err HState :=
+  confirmStepPV (planFor m.key) validateProg tron recoverBy st m
+
+/-- the decoder rule behind a Validate…Signature function (`validateDecoders`, `sigRules`: both regenerated) -/
+def ruleOfValidator (fn : String) : SigRule :=
+  match validateDecoders.lookup fn with
+  | some dec => (sigRules.find? (fun r => r.func == dec)).getD ⟨"", "", [], "", "", "", 0, [], 0⟩
+  | none => ⟨"", "", [], "", "", "", 0, [], 0⟩
+
 end FxVerif.Model.C12
